@@ -314,18 +314,15 @@ impl WmoWriter {
         &self,
         writer: &mut W,
         materials: &[WmoMaterial],
-        target_version: WmoVersion,
+        _target_version: WmoVersion,
     ) -> Result<()> {
         if materials.is_empty() {
             return Ok(());
         }
 
-        // Determine material size based on version
-        let material_size = if target_version >= WmoVersion::Mop {
-            64
-        } else {
-            40
-        };
+        // SMOMaterial is 64 bytes in every version 17 file (36 bytes of fields
+        // plus 28 bytes of padding, exactly what the loop below emits)
+        let material_size = 64;
 
         let header = ChunkHeader {
             id: chunks::MOMT,
